@@ -3,6 +3,7 @@
 # uses a scratch copy of the sources (VERIF_REPO_SRC), never touches /repo; results -> seeded/RESULTS.md
 cd /verif
 OUT=seeded/RESULTS.md
+[ "$1" = all ] && OUT=seeded/RESULTS_ALL.md
 echo "| seeded change | breaks | check | verdict | decided by | failing obligation / counterexample |" > $OUT.tmp
 echo "|---|---|---|---|---|---|" >> $OUT.tmp
 for d in seeded/*/; do
@@ -17,8 +18,14 @@ for d in seeded/*/; do
   if ! (cd $D && patch -s -p1 < /verif/$d/patch.diff); then echo "| $n | $p | - | patch does not apply | | |" >> $OUT.tmp; rm -rf $D; continue; fi
   for q in $props; do
     grep -q "\"$q\"" MANIFEST.json || continue
-    VERIF_REPO_SRC=$D/embedded-cli/src bin/check $q 2>/dev/null > $D/out.txt
-    python3 - "$n" "$p" "$q" $D/out.txt >> $OUT.tmp <<'PY'
+    VERIF_REPO_SRC=$D/embedded-cli/src bin/check $q 2>/dev/null > $D/out-$q.txt &
+    [ "$1" = all ] || wait
+    while [ $(jobs -r | wc -l) -ge 6 ]; do sleep 2; done
+  done
+  wait
+  for q in $props; do
+    [ -f $D/out-$q.txt ] || continue
+    python3 - "$n" "$p" "$q" $D/out-$q.txt >> $OUT.tmp <<'PY'
 import sys,re
 n,p,q,f=sys.argv[1:5]
 t=open(f).read()
